@@ -654,8 +654,15 @@ def stream_molecule(ctx):
                     elif kind == 'small':
                         A = A * 1e-6
                     want[a] = A
-            if rng.random() < 0.4:
-                want['general_calculations'] = {('calc%d' % i): rng.uniform(-2, 2) for i in range(rng.randint(1, 3))}
+            # general_calculations is stored as two parallel datasets (labels / energies): labels of different lengths, with
+            # blanks, inserted in NON-alphabetical order; 0, 1 and several entries (non-ASCII labels are rejected by the tree)
+            if rng.random() < 0.6 or k in (5, 6, 7):
+                pool = ['ZAPT2', 'CASSCF', 'a', 'MP2 (fc)', 'b b', 'x' * 12, 'A', 'zz', 'CCSD(T)', 'B3LYP', '0th', 'Z']
+                n_gc = {5: 0, 6: 1, 7: 4}.get(k, rng.choice([1, 2, 3, 5]))
+                labels = rng.sample(pool, n_gc)
+                if n_gc >= 2 and labels == sorted(labels):
+                    labels.reverse()
+                want['general_calculations'] = {lab: (i + 1) * 1.25 - 3.0 for i, lab in enumerate(labels)}
             import copy
             for a, v in want.items():
                 setattr(m, a, copy.deepcopy(v))
@@ -663,6 +670,10 @@ def stream_molecule(ctx):
             s.case(c)
             try:
                 m.save()
+                first_gc = MolecularData(filename=fn).general_calculations
+                if {kk: float(vv) for kk, vv in (first_gc or {}).items()} != {kk: float(vv) for kk, vv in want.get('general_calculations', {}).items()}:
+                    s.violate('after the first save a fresh load maps a general_calculations label to another energy', c,
+                              {'loaded': repr(first_gc), 'inserted': want.get('general_calculations', {})})
                 m2 = MolecularData(filename=fn[:-5] if k == 3 else (fn + '.hdf5' if k == 4 else fn))
                 m2.save()
                 m3 = MolecularData(filename=fn)
@@ -671,6 +682,24 @@ def stream_molecule(ctx):
             except Exception as e:  # noqa: BLE001
                 s.violate('MolecularData.save / load raised (three save/load cycles)', c, repr(e))
                 continue
+            # the two datasets must be position-aligned and hold every label with ITS energy (direct h5py read; the file has
+            # been written three times by now: a scrambled state must not be a fixed point either)
+            try:
+                import h5py
+                with h5py.File(m2.filename + '.hdf5', 'r') as f5:
+                    rk, rv = f5['general_calculations_keys'][...], f5['general_calculations_values'][...]
+                gc = want.get('general_calculations', {})
+                s.count('oracle:general_calculations(h5py):%d entries' % min(len(gc), 3))
+                if gc:
+                    stored = {kk.decode('utf-8'): float(vv) for kk, vv in zip(numpy.atleast_1d(rk), numpy.atleast_1d(rv))}
+                    if stored != {kk: float(vv) for kk, vv in gc.items()} or len(numpy.atleast_1d(rk)) != len(gc):
+                        s.violate('the general_calculations key / value datasets of the file are not aligned with the inserted dictionary', c,
+                                  {'keys': [x.decode() for x in numpy.atleast_1d(rk)], 'values': [float(x) for x in numpy.atleast_1d(rv)],
+                                   'inserted': gc})
+                elif rk.shape != () or rv.shape != ():
+                    s.violate('an empty general_calculations dictionary is not stored as the empty sentinel', c, None)
+            except Exception as e:  # noqa: BLE001
+                s.violate('direct h5py read of general_calculations failed', c, repr(e))
             # Model of the attribute encode / decode table (None <-> False sentinel, int(), float()) vs the real round trip
             try:
                 kinds = {'n_orbitals': 1, 'n_qubits': 1, 'nuclear_repulsion': 2}
